@@ -716,7 +716,7 @@ class C03(Prop):
         res = Result(rule="scenario = (contexts 1..3, objects 1..2 with home contexts, 1..6 caller threads each bound to a "
                           "context with a program of blocking / non-blocking calls and waits) x schedule (seed, policy); "
                           "non-trivial = at least two calls; distinct by (scenario, seed, policy)")
-        n = ctx.scale(290, 5000)
+        n = ctx.scale(290, 7000)
         batch = []
         todo = [(f"{ctx.seed}:fix{i}:{j}", s, pol) for i, s in enumerate(FIXED_SCENARIOS)
                 for j, pol in enumerate(["weighted", "pct"] * ctx.scale(1, 4))]
